@@ -9,7 +9,8 @@ Record sretrier := { sr_errors : list string; sr_interval : Q; sr_max : Z; sr_ra
 Record scatcher := { sc_errors : list string; sc_next : string; sc_path : option (list string) }.
 
 Definition spec_unrecoverable (e : string) : bool :=
-  String.eqb e "States.Runtime" || String.eqb e "States.ExecutionTimeout" || String.eqb e "Task.Terminated".
+  String.eqb e "States.Runtime" || String.eqb e "States.ExecutionTimeout" || String.eqb e "Task.Terminated" ||
+  String.eqb e "States.ExecutionHistoryLimitExceeded".        (* an execution over the history quota must fail, not be carried on by a Retry or Catch *)
 
 Definition has (s : string) (l : list string) : bool := existsb (String.eqb s) l.
 
